@@ -1228,3 +1228,296 @@ def case_r7_number_and_char_builtins():
     unesc = re.sub(r"%([0-9A-Fa-f]{2})", lambda m: chr(int(m.group(1), 16)), "50%25 off%22")
     return [int("25", 16), int("0x1f", 0), int("101", base=2), chr(65) + chr(0x25), ord("a"), hex(255), bin(5), unesc,
             int(3.9), int(" 7 "), float("1e3"), "%02X" % ord('"'), f"{ord('%'):02X}"]
+
+
+# ---- round 8: standard-library facilities used by modernisations ------------------------------------------------------
+import types as _types
+import enum as _enum
+import io as _io
+import bisect as _bisect
+import heapq as _heapq
+import string as _string
+import textwrap as _textwrap
+from typing import TypedDict as _TypedDict, Protocol as _Protocol
+import abc as _abc
+
+_TABLE = _types.MappingProxyType({"a": 1, "b": 2})
+_WORDS = frozenset({"and", "or"})
+
+
+class _Info(_TypedDict):
+    name: str
+    size: int
+
+
+class _InfoOpt(_TypedDict, total=False):
+    extra: str
+
+
+class _Named(_Protocol):
+    name: str
+
+
+class _Perm(_enum.Flag):
+    R = 1
+    W = 2
+    X = 4
+
+
+class _Level(_enum.IntEnum):
+    LOW = 1
+    HIGH = 5
+
+
+class _Slotted:
+    __slots__ = ("a", "b")
+
+    def __init__(self, a, b):
+        self.a = a
+        self.b = b
+
+
+class _Shape(_abc.ABC):
+    @_abc.abstractmethod
+    def area(self):
+        ...
+
+    def double(self):
+        return 2 * self.area()
+
+
+class _Sq(_Shape):
+    def __init__(self, s):
+        self.s = s
+
+    def area(self):
+        return self.s * self.s
+
+
+class _Lazy:
+    def __init__(self, xs):
+        self.xs = xs
+        self.calls = 0
+
+    @functools.cached_property
+    def total(self):
+        self.calls += 1
+        return sum(self.xs)
+
+
+class _Disp:
+    @functools.singledispatchmethod
+    def show(self, v):
+        return "other"
+
+    @show.register
+    def _(self, v: int):
+        return "int"
+
+    @show.register
+    def _(self, v: str):
+        return "str"
+
+
+def case_r8_mappingproxy():
+    out = [_TABLE["a"], _TABLE.get("z", 0), "b" in _TABLE, list(_TABLE), len(_TABLE), sorted(_TABLE.items())]
+    try:
+        _TABLE["c"] = 3
+    except TypeError:
+        out.append("readonly")
+    return out
+
+
+def case_r8_typeddict():
+    d = _Info(name="x", size=3)
+    e = _InfoOpt()
+    d2 = d | {"size": 4}
+    return [d, e, d2, isinstance(d, dict), list(d)]
+
+
+def case_r8_flag_intenum():
+    p = _Perm.R | _Perm.W
+    return [_Perm.R in p, _Perm.X in p, p.value, _Level.HIGH > 3, int(_Level.LOW), _Level(5).name, sorted([_Level.HIGH, _Level.LOW])[0].name]
+
+
+def case_r8_slots():
+    s = _Slotted(1, 2)
+    s.a = 5
+    try:
+        s.c = 1
+        extra = "stored"
+    except AttributeError:
+        extra = "refused"
+    return [s.a, s.b, extra]
+
+
+def case_r8_abc():
+    out = [_Sq(3).double()]
+    try:
+        _Shape()
+        out.append("made")
+    except TypeError:
+        out.append("abstract")
+    return out
+
+
+def case_r8_cached_property():
+    z = _Lazy([1, 2, 3])
+    a = z.total
+    z.xs.append(10)
+    b = z.total
+    del z.total
+    c = z.total
+    return [a, b, c, z.calls]
+
+
+def case_r8_singledispatchmethod():
+    d = _Disp()
+    return [d.show(1), d.show("s"), d.show(2.5), d.show(True)]
+
+
+def case_r8_stringio():
+    buf = _io.StringIO()
+    buf.write("a")
+    buf.writelines(["b", "c\n"])
+    print("d", 1, file=buf, sep="-")
+    return buf.getvalue()
+
+
+def case_r8_str_methods():
+    t = str.maketrans({"a": "1", "b": None})
+    return ["abcab".translate(t), "k=v=w".partition("="), "k=v=w".rpartition("="), "prefix_x".removeprefix("prefix_"),
+            "x.uvl".removesuffix(".uvl"), "{a}-{b}".format_map({"a": 1, "b": 2}), _string.Template("$x and ${y}").substitute(x=1, y=2),
+            _textwrap.indent("a\nb", "  "), "a,b;c".replace(";", ",").split(","), "Abc".casefold(), "x".join(["1", "2"]),
+            "  s ".strip(), "a b".title(), "ab".center(6, "*"), "7".zfill(3), "a\tb".expandtabs(4)]
+
+
+def case_r8_re_named_groups():
+    pat = re.compile(r"""
+        (?P<lo>\d+) \.\. (?P<hi>\d+|\*)   # bounds
+    """, re.VERBOSE)
+    m = pat.fullmatch("2..*")
+    m2 = pat.search("x 10..12 y")
+    return [m.group("lo"), m["hi"], m2.groupdict(), m2.span(), pat.sub(lambda mm: mm.group("hi"), "1..3 4..5"), bool(pat.match("no"))]
+
+
+def case_r8_bisect_heapq():
+    xs = [1, 3, 5]
+    _bisect.insort(xs, 4)
+    h = [5, 1, 4]
+    _heapq.heapify(h)
+    _heapq.heappush(h, 0)
+    return [xs, _bisect.bisect_left(xs, 3), _bisect.bisect_right(xs, 3), _heapq.heappop(h), _heapq.nsmallest(2, [4, 2, 9]), sorted(h)]
+
+
+def case_r8_collections():
+    cm = collections.ChainMap({"a": 1}, {"a": 2, "b": 3})
+    od = collections.OrderedDict([("x", 1), ("y", 2)])
+    od.move_to_end("x")
+    dd = collections.defaultdict(list)
+    dd["k"].append(1)
+    ns = _types.SimpleNamespace(a=1, b="t")
+    ns.c = 3
+    return [cm["a"], cm["b"], list(od), dict(dd), ns.a, ns.c, sorted(vars(ns))]
+
+
+def case_r8_itertools():
+    a, b = itertools.tee(iter([1, 2, 3]))
+    return [list(itertools.pairwise([1, 2, 3])), list(itertools.starmap(pow, [(2, 3), (3, 2)])),
+            list(itertools.zip_longest("ab", "c", fillvalue="-")), list(itertools.compress("abc", [1, 0, 1])),
+            list(itertools.product("ab", repeat=2))[:3], list(a), list(b), operator.itemgetter(1, 0)(["x", "y"])]
+
+
+def case_r8_match_sequences():
+    out = []
+    for v in ((1, 2), [1, 2, 3], ("k", {"a": 1}), (0,), "str", (1, "x")):
+        match v:
+            case (1, 2):
+                out.append("pair")
+            case [1, *rest]:
+                out.append(("head", rest))
+            case ("k", {"a": x}):
+                out.append(("map", x))
+            case (0 | 9,):
+                out.append("single")
+            case str() as s:
+                out.append(("s", s))
+            case _:
+                out.append("other")
+    return out
+
+
+def case_r8_try_else_finally_from():
+    log = []
+
+    def f(x):
+        try:
+            if x == 0:
+                raise KeyError("k")
+        except KeyError as exc:
+            log.append("except")
+            raise ValueError("v") from exc
+        else:
+            log.append("else")
+        finally:
+            log.append("finally")
+        return x
+    f(1)
+    try:
+        f(0)
+    except ValueError as exc:
+        log.append(type(exc.__cause__).__name__)
+    return log
+
+
+def case_r8_nonlocal_unpacking_merge():
+    def counter():
+        n = 0
+
+        def inc(k=1):
+            nonlocal n
+            n += k
+            return n
+        return inc
+    c = counter()
+    c()
+    c(5)
+    first, *mid, last = [1, 2, 3, 4]
+    d = {"a": 1} | {"b": 2}
+    d |= {"a": 9}
+
+    def g(*a, **k):
+        return (a, sorted(k))
+    return [c(), first, mid, last, d, [*range(2), *"ab"], {**d, "z": 0}, g(*[1, 2], **{"x": 1}), {k: v for k, v in d.items() if v > 1},
+            {x % 2 for x in range(5)}]
+
+
+def case_r8_contextlib_exitstack():
+    import contextlib
+    log = []
+
+    @contextlib.contextmanager
+    def cm(name):
+        log.append("in " + name)
+        try:
+            yield name
+        finally:
+            log.append("out " + name)
+    with contextlib.ExitStack() as st:
+        a = st.enter_context(cm("a"))
+        b = st.enter_context(cm("b"))
+        log.append(a + b)
+    with contextlib.suppress(KeyError):
+        {}["x"]
+        log.append("not reached")
+    return log
+
+
+def case_r8_dataclass_slots():
+    @dataclass(slots=True)
+    class Pt:
+        x: int
+        y: int = 0
+    p = Pt(1)
+    p.y = 4
+    return [p.x, p.y, p == Pt(1, 4)]
